@@ -145,7 +145,15 @@ def step (op res : String) : List String :=
                if s.listen.isNone then ["br:cload.default-listen"] else ["br:cload.listen"]))).flatten) ++
             (match m with | some (c6, c4) => (if ((c6.map (·.addrs)).getD [] ++ (c4.map (·.addrs)).getD []).any (fun a => a.zone != "") then ["br:cload.zoned"] else []) | none => [])
           brs ++ (if same then [] else [s!"DIVERGE dom model={match m with | none => "err" | some (a, b) => s!"ok s6 {fmtCfg a} s4 {fmtCfg b}"}"]) ++
-                 (if C18.holds ifs s6 s4 obs then [] else [s!"FAIL C18 Load returned {outS.take 300}"])
+                 (if C18.holds ifs s6 s4 obs then [] else [s!"FAIL C18 Load returned {outS.take 300}"]) ++
+                 -- both accept, but a plugin is handed other arguments than the file lists: whatever the plugin then sends is not
+                 -- "the configured value" (C17) — round 8: environment variables expanded in the argument string
+                 (match m, obs with
+                  | some (a6, a4), some (b6, b4) =>
+                    let pl (c : Option ServerConfig) : List (String × List String) := (c.map (·.plugins)).getD []
+                    if pl a6 == pl b6 && pl a4 == pl b4 then [] else
+                      [s!"FAIL C17 the plugins are configured with {pl b6} / {pl b4}, the file lists {pl a6} / {pl a4}"]
+                  | _, _ => [])
       | _, _ => ["DIVERGE drift unparsed-view"]
     | _ => ["DIVERGE drift unparsed-view"]
   | _ => ["DIVERGE drift unparsed-op " ++ op.take 20]
